@@ -145,7 +145,7 @@ fn check_mn(case: &MnCase, p: &mut Probe) -> Check {
     }
     // seed sensitivity: with many admissible outputs, four seeds should not all coincide
     let successes = outcomes.iter().filter(|&&b| b).count();
-    let room = case.ncols >= 6 && case.nrows >= 4 && case.wc >= 2 && case.wc < case.nrows;
+    let room = case.ncols >= 6 && case.nrows >= 4 && case.wc >= 1 && case.wc < case.nrows;
     if successes >= 4 && room {
         p.class("seed-sensitivity-checked");
         if distinct.len() < 2 {
